@@ -1192,6 +1192,12 @@ class _FuncAnalysis:
             if not excs:
                 return set()
             ok = None
+            extra: set[Esc] = set()
+            if name == "struct.pack" and c.args:
+                fmt = self.repo.fold(c.args[0], self.mod, self.ctx)
+                if not isinstance(fmt, str) or any(ch in fmt for ch in "fe"):
+                    # 'f' / 'e' refuse finite floats beyond their range with OverflowError (not struct.error)
+                    extra = self.site([("OverflowError", "struct.pack: float too large for the 'f'/'e' format")], c, None)
             if name == "struct.unpack":
                 ok = self.struct_ok(c, local)
             if name == "next" and len(c.args) >= 2:
@@ -1203,7 +1209,7 @@ class _FuncAnalysis:
                     hi = self.repo.fold(a.slice.upper, self.mod, self.ctx) if a.slice.upper is not None else None
                     if isinstance(lo, int) and isinstance(hi, int) and hi - lo == 4 and self.len_lower_bound(ast.unparse(a.value), c, local) >= hi:
                         ok = "4 octets proven by the length guard"
-            return self.site([(x, f"{name}()") for x in excs], c, ok)
+            return self.site([(x, f"{name}()") for x in excs], c, ok) | extra
         if attr == "decode":
             return self.decode_site(c, c.args, local)
         if attr == "encode" and kinds(recv_type) == {"str"}:
